@@ -28,6 +28,7 @@ def reset():
     """Forget all terms (call between independent configurations)."""
     _TABLE.clear()
     _Z3MEMO.clear()
+    _Z3MEMO_ABS.clear()
     _NEXT[0] = 0
 
 
@@ -294,6 +295,45 @@ def or_(*xs):
     return _mk('or', tuple(out), B)
 
 
+# ------------------------------------------------- rational normal form
+def num_den(root):
+    """(N, D) with root == N / D and no division node in N, D outside uninterpreted applications
+    and ite-branches.  Valid on the current path because every division term is created under the
+    path condition 'denominator != 0' (definedness rule)."""
+    memo = {}
+    one = const(1)
+    for t in postorder([root]):
+        if t.sort == B:
+            continue
+        op = t.op
+        if op in ('const', 'var', 'app', 'ite', 'idiv', 'imod'):
+            memo[t.id] = (to_real(t) if t.sort == Z else t, one)
+        elif op == 'to_real':
+            memo[t.id] = memo[t.args[0].id]
+        elif op == 'neg':
+            n, d = memo[t.args[0].id]
+            memo[t.id] = (neg(n), d)
+        elif op == 'add':
+            (n1, d1), (n2, d2) = memo[t.args[0].id], memo[t.args[1].id]
+            if d1 is d2:
+                memo[t.id] = (add(n1, n2), d1)
+            else:
+                memo[t.id] = (add(mul(n1, d2), mul(n2, d1)), mul(d1, d2))
+        elif op == 'mul':
+            (n1, d1), (n2, d2) = memo[t.args[0].id], memo[t.args[1].id]
+            memo[t.id] = (mul(n1, n2), mul(d1, d2))
+        elif op == 'div':
+            (n1, d1), (n2, d2) = memo[t.args[0].id], memo[t.args[1].id]
+            memo[t.id] = (mul(n1, d2), mul(d1, n2))
+        else:
+            raise ValueError(op)
+    return memo[root.id]
+
+
+def has_div(roots):
+    return any(t.op == 'div' for t in postorder(roots))
+
+
 # ------------------------------------------------------------ traversal
 def postorder(roots):
     seen = set()
@@ -341,8 +381,18 @@ def z3fun(name, arity, sort=R):
     return f
 
 
-def to_z3(root):
-    memo = _Z3MEMO
+_Z3MEMO_ABS = {}
+
+
+def to_z3_abs(root):
+    """Like to_z3, but every uninterpreted application is replaced by a fresh variable (named by its
+    node).  This drops congruence, i.e. weakens the formula: 'unsat' of the abstraction implies
+    'unsat' of the original, and the abstraction lies in pure (non-linear) real arithmetic."""
+    return to_z3(root, _Z3MEMO_ABS, True)
+
+
+def to_z3(root, memo=None, abstract_apps=False):
+    memo = _Z3MEMO if memo is None else memo
     if root.id in memo:
         return memo[root.id]
     for t in postorder([root]):
@@ -375,6 +425,8 @@ def to_z3(root):
             e = z3.ToReal(a[0])
         elif op == 'ite':
             e = z3.If(a[0], a[1], a[2])
+        elif op == 'app' and abstract_apps:
+            e = z3.Real('app!%s!%d' % (t.val, t.id)) if t.sort == R else z3.Int('app!%s!%d' % (t.val, t.id))
         elif op == 'app':
             e = z3fun(t.val, len(a), t.sort)(*[z3.ToReal(x) if x.sort() == z3.IntSort() else x for x in a])
         elif op == 'lt':
